@@ -82,12 +82,21 @@ def rerun_slow(wd, cases, out, skip, tag, binary='harness', extra_env=None, slow
     slow = [i for i, o in enumerate(out) if timed_out(o) and i not in skip]
     if not slow:
         return out
-    t0 = time.time()
-    again = run_impl(wd, [cases[i] for i in slow], tag=tag + '.slow', timeout_ms=(slow_ms or SLOW_MS), binary=binary, extra_env=extra_env)
-    for i, o in zip(slow, again):
-        if not timed_out(o):
-            SLOW_CASES.append(dict(case=cases[i][:200], seconds_for_the_batch=round(time.time() - t0, 1)))
-        out[i] = o
+    # in batches of one case per worker; once a batch has confirmed that some case does not return even with the
+    # long deadline, the violation is established and the remaining late cases keep their first verdict
+    for b in range(0, len(slow), 16):
+        batch = slow[b:b + 16]
+        t0 = time.time()
+        again = run_impl(wd, [cases[i] for i in batch], tag=tag + '.slow', timeout_ms=(slow_ms or SLOW_MS), binary=binary, extra_env=extra_env)
+        confirmed = False
+        for i, o in zip(batch, again):
+            if not timed_out(o):
+                SLOW_CASES.append(dict(case=cases[i][:200], seconds_for_the_batch=round(time.time() - t0, 1)))
+            else:
+                confirmed = True
+            out[i] = o
+        if confirmed:
+            break
     return out
 
 
